@@ -322,3 +322,82 @@ def run_validates(u: Unit):
         valid = z3.And(N >= 1, T(0) != 0, START < T(0), z3.Implies(z3.And(GI >= 0, GI < N - 1), T(GI) < T(GI + 1)))
         called = p.st.ghost[CALLS] if not isinstance(p.st.ghost[CALLS], int) else z3.IntVal(p.st.ghost[CALLS])
         u.oblige(p, "run.validates_before_models", z3.Or(valid, z3.And(zb(p.kind == "raise"), called == 0)), w, clock_replay())
+
+
+# ---- Readout (the user's schedule object): constructor and setters -------------------------------------------------------
+READOUT_REPLAY = lambda w: {"code": """
+import numpy as np
+from pyxel.exposure import Readout
+VIOLATED, DETAIL = False, ''
+cases = [([1, 2, 2], 0.0), ([0.0, 1.0], -1.0), ([1.0, 2.0], 1.0), ([1.0, 2.0], 3.0), ([3.0, 2.0, 4.0], 0.0), ([1.0, 2.0, 4.0], 0.5), ([-2.0, -1.0], -3.0), ([1e-9, 3e-9, 4e-9], 0.0)]
+for times, start in cases:
+    t = np.array(times, dtype=float)
+    valid = t[0] != 0 and start < t[0] and bool(np.all(np.diff(t) > 0))
+    try:
+        r = Readout(times=times, start_time=start)
+    except Exception as e:
+        if valid: VIOLATED, DETAIL = True, f'valid schedule {times}, start {start} rejected: {e!r}'
+        continue
+    exp = np.diff(np.concatenate(([start], t)))
+    if not valid or not np.array_equal(r.steps, exp) or not np.array_equal(r.times, t):
+        VIOLATED, DETAIL = True, f'Readout(times={times}, start_time={start}): accepted, valid={valid}, steps={r.steps.tolist()} expected {exp.tolist()}'
+for start in (0.5, 1.0, 2.0):
+    r = Readout(times=[1.0, 2.0, 4.0])
+    try:
+        r.start_time = start
+        if not start < 1.0 or not np.array_equal(r.steps, np.diff([start, 1.0, 2.0, 4.0])):
+            VIOLATED, DETAIL = True, f'start_time = {start} accepted; steps {r.steps.tolist()}'
+    except ValueError:
+        if start < 1.0: VIOLATED, DETAIL = True, f'valid start_time {start} refused'
+""", "expect": "Readout accepts exactly the valid schedules and keeps steps = differences with the start time prepended"}
+
+
+@unit("C02", "readout.ctor")
+def readout_ctor(u: Unit):
+    """Readout.__init__ / start_time setter on a schedule given as a list of numbers of symbolic length: acceptance implies
+    validity (first time non-zero, later than the start, strictly increasing) and the stored steps are the differences."""
+    fi = u.fn(f"{RO}::Readout.__init__")
+    u.fn(f"{RO}::Readout._set_steps")
+    ci = u.cls(f"{RO}::Readout")
+    cfg = Cfg("real")
+    cfg.contracts["pyxel/evaluator.py::eval_range"] = Contract("pyxel/evaluator.py::eval_range", lambda ex, args, kwargs, fr: args[0], "a list of numbers denotes itself (C12 / C05 cover textual ranges)")
+
+    def setup(ex):
+        ex.st.assume(z3.And(N >= 1, GI >= 0))
+        ex.st.ghost["generic"] = [(GI,)]
+        obj = ex.st.alloc(HObj(ci, {}))
+        ex.self_ref = obj
+        times = VSeq(N, lambda i: VFloat(T(i)), None, "list")
+        return [obj], {"times": times, "times_from_file": NONE, "start_time": VFloat(START), "non_destructive": VBool(z3.Bool("non_destructive"))}
+    ps = u.paths(fi, setup, cfg, label="Readout.__init__[list]")
+    w = {"n": N, "t0": T(0), "t1": T(1), "start": START, "g_i": GI}
+    for p in ps:
+        if p.kind != "return":
+            continue
+        f = p.st.cell(p.ex.self_ref).fields
+        u.oblige(p, "readout.reject[accepted implies valid]", z3.And(T(0) != 0, START < T(0), z3.Implies(GI < N - 1, T(GI) < T(GI + 1))), w, READOUT_REPLAY, info={"small": [N, GI]})
+        tc, sc = p.st.cell(f["_times"]), p.st.cell(f["_steps"])
+        u.oblige(p, "readout.times_stored", z3.And(z_int(tc.shape[0]) == N, z3.Implies(GI < N, to_real(tc.elem((GI,))) == T(GI))), w, READOUT_REPLAY)
+        u.oblige(p, "readout.steps.diff", z3.And(z_int(sc.shape[0]) == N, z3.Implies(GI < N, to_real(sc.elem((GI,))) == steps_spec(GI))), w, READOUT_REPLAY, info={"small": [N, GI]})
+        u.oblige(p, "readout.fields", z3.And(to_real(f["_start_time"]) == START, z_bool(f["_non_destructive"].v) == z3.Bool("non_destructive")), w, READOUT_REPLAY)
+    u.cover("readout.ctor.cover", ps, lambda p: p.kind == "return")
+    # start_time setter
+    fs = u.fn(f"{RO}::Readout.start_time.setter")
+    NEW = z3.Real("new_start")
+
+    def setup_s(ex):
+        ex.st.assume(z3.And(N >= 1, GI >= 0))
+        ex.st.ghost["generic"] = [(GI,)]
+        obj = ex.st.alloc(HObj(ci, {"_times": times_array(ex), "_start_time": VFloat(START), "_steps": times_array(ex), "_num_steps": VInt(N), "_times_linear": VBool(True)}))
+        ex.self_ref = obj
+        return [obj, VFloat(NEW)], {}
+    ps = u.paths(fs, setup_s, cfg, label="Readout.start_time.setter")
+    for p in ps:
+        f = p.st.cell(p.ex.self_ref).fields
+        if p.kind != "return":
+            u.oblige(p, "readout.start_time.atomic", to_real(f["_start_time"]) == START, {"new_start": NEW, "t0": T(0)}, READOUT_REPLAY)
+            continue
+        sc = p.st.cell(f["_steps"])
+        u.oblige(p, "readout.start_time.valid", z3.And(NEW < T(0), to_real(f["_start_time"]) == NEW), {"new_start": NEW, "t0": T(0)}, READOUT_REPLAY)
+        u.oblige(p, "readout.start_time.steps", z3.Implies(GI < N, to_real(sc.elem((GI,))) == z3.If(GI == 0, T(0) - NEW, T(GI) - T(GI - 1))), {"new_start": NEW}, READOUT_REPLAY, info={"small": [N, GI]})
+    u.cover("readout.start_time.cover", ps, lambda p: p.kind == "return")
